@@ -10,10 +10,12 @@
   * §2 worker    `workerRun`, `worker_refines` (+ `_core`, `_drain`, `_shutdown`) for EVERY command, `Shutdown` included;
                  heart: `loop_sim` (`createLoop` against the cycle
                  `loopDecide → evRemove → evSub → evStore → evSpace → fill`), `put_sim`, `worker_put`;
-  * §3 clients   `clientRun`, `client_refines` (`putW`, `delete`, `get`, `weight`, `upsert`, `getRef`, `shutdown`),
-                 `afterCall`; `getRef k` is Layer A's `.get k` (guard taken and released within the run:
+  * §3 clients   `clientRun`, `client_refines` (`putW`, `delete`, `get`, `weight`, `upsert`, `getRef`, `shutdown`,
+                 `mget`), `afterCall`; `getRef k` is Layer A's `.get k` (guard taken and released within the run:
                  `client_getRef`), `shutdown` is `clientShutdown` (`client_shutdown`, `run_shutSendCmd`,
-                 `run_shutSendBuf`, `run_shutFinish`);
+                 `run_shutSendBuf`, `run_shutFinish`); `mget ks iter` (`multi_get` and the two iterators) is Layer A's
+                 `.multiGet ks` (`run_mget`: induction over the keys against `readKeys`; `client_mget`;
+                 `client_mget_iter_irrelevant`); fuel `2·|ks| + 2`;
                  `parked_is_send` / `parked_is_shutdown_send` / `parked_not_enabled` (Layer A's `.parked` = the Layer B
                  client at `.send cmd` / `.shutSendCmd` / `.shutSendBuf` with that queue full);
                  `resume_refines` (a parked call + `resume` = the Layer B client going on from that send);
@@ -835,7 +837,10 @@ theorem run_send (g : State) (w : WPc) (sw : SPc) (cl : List CPc) (res : List (L
     · simp [clientRun, parkedAt, hd, hf, hi]
     · simp [clientRun, clientAct, sendAct, parkedAt, finishCall, hd, hf, hi, List.set_set]
 
-/-- Layer A's event for a Layer B request of client `c` (`get_ref` is one of the single-key reads: Layer A's `.get`) -/
+/-- Layer A's event for a Layer B request of client `c` (`get_ref` is one of the single-key reads: Layer A's `.get`;
+    `multi_get` and the two multi-get iterators are all Layer A's `.multiGet`: with nobody else moving the shutdown
+    flag cannot change between two keys, so the only difference between them — what happens to the remaining keys once
+    the flag is set — never shows: `client_mget`) -/
 def reqEv (c : Nat) : Req → Ev
   | .putW k v w none => .putW c k v w
   | .putW k v w (some t) => .putWTtl c k v w t
@@ -845,6 +850,7 @@ def reqEv (c : Nat) : Req → Ev
   | .upsert k v w ttl rm => .upsert c k v w ttl rm
   | .getRef k => .get k
   | .shutdown => .shutdown c
+  | .mget ks _ => .multiGet ks
 
 /-- where the Layer B client stands when Layer A has parked its call with `pend[c] = p` -/
 def pcOfPending : Option Pending → CPc
@@ -1126,6 +1132,128 @@ theorem client_getRef (g : State) (w : WPc) (sw : SPc) (cl : List CPc) (res : Li
           simp [CAgree, afterCall, hi]
       · simp [clientRun, clientAct, parkedAt, finishCall, setClient, hs, hi, hk, ha, List.set_set, CAgree, afterCall]
 
+/-! ### multi-key reads -/
+
+theorem poolAdd_shutting (s : State) (h : Nat) (o : Oracle) (s2 : State) (o' : Oracle)
+    (hp : poolAdd s h o = .ok (s2, o')) : s2.shutting = s.shutting := by
+  unfold poolAdd at hp
+  split at hp
+  · cases hp
+  · split at hp
+    · cases hp
+    · simp only [Except.ok.injEq, Prod.mk.injEq] at hp
+      rw [← hp.1]
+      simp only []
+      split
+      · simp only [acceptBuffer]; split <;> rfl
+      · rfl
+
+theorem poolAdd_cfg (s : State) (h : Nat) (o : Oracle) (s2 : State) (o' : Oracle)
+    (hp : poolAdd s h o = .ok (s2, o')) : s2.cfg = s.cfg := by
+  unfold poolAdd at hp
+  split at hp
+  · cases hp
+  · split at hp
+    · cases hp
+    · simp only [Except.ok.injEq, Prod.mk.injEq] at hp
+      rw [← hp.1]
+      simp only []
+      split
+      · simp only [acceptBuffer]; split <;> rfl
+      · rfl
+
+/-- agreement of Layer A's `readKeys` with a Layer B run that ends in the state `mk g1 vs` -/
+def MAgree (ra : Except String (State × List (Option Nat) × Oracle)) (rb : Except String (BState × Oracle))
+    (mk : State → List (Option Nat) → BState) : Prop :=
+  match ra with
+  | .ok (g1, vs, o') => rb = .ok (mk g1 vs, o')
+  | .error _ => ∃ m, rb = .error m
+
+/-- Layer B from "on to the next key" (`mgetNext`) to the end of the multi-key read, with nobody else moving and the
+    flag not set, against Layer A's `readKeys` (which gathers the results in reverse): at most two actions per key and
+    the final idle test. `iter` plays no role. -/
+theorem run_mget (w : WPc) (sw : SPc) (res : List (List Out)) (ss : List (Nat × Nat)) (i : Nat) (iter : Bool) :
+    ∀ (ks : List Nat) (g : State) (cl : List CPc) (accA : List (Option Nat)) (o : Oracle) (n : Nat),
+      i < cl.length → g.shutting = false →
+      MAgree (readKeys g ks o accA)
+        (clientRun (n + 2 * ks.length + 1)
+          (mgetNext ⟨g, w, sw, cl, res, none, none, [], ss⟩ i ks accA.reverse iter) i o)
+        (fun g1 vs => ⟨g1, w, sw, cl.set i .idle, res.set i (.values vs :: res.getD i []), none, none, [], ss⟩) := by
+  intro ks
+  induction ks with
+  | nil =>
+    intro g cl accA o n hi hs
+    simp [readKeys, MAgree, mgetNext, finishCall, clientRun, hi]
+  | cons k ks ih =>
+    intro g cl accA o n hi hs
+    have hfuel : n + 2 * (k :: ks).length + 1 = (n + 2 * ks.length + 2) + 1 := by
+      simp only [List.length_cons]; omega
+    have hnext : mgetNext ⟨g, w, sw, cl, res, none, none, [], ss⟩ i (k :: ks) accA.reverse iter =
+        ⟨g, w, sw, cl.set i (.mgetStore k ks accA.reverse iter), res, none, none, [], ss⟩ := by
+      simp [mgetNext, hs, setClient]
+    rw [hfuel, hnext]
+    rw [clientRun_act (pc := .mgetStore k ks accA.reverse iter) (hpc := by simp [hi]) (h1 := by simp) (h2 := by simp)]
+    simp only [readKeys, readKey]
+    have e1 : n + 2 * ks.length + 2 = (n + 1) + 2 * ks.length + 1 := by omega
+    cases hk : g.store.get? k with
+    | none =>
+      simp only [clientAct, hi, List.getElem?_set_self, hk]
+      have := ih { g with stats := { g.stats with misses := g.stats.misses + 1 } }
+        (cl.set i (.mgetStore k ks accA.reverse iter)) (none :: accA) o (n + 1) (by simp [hi]) hs
+      simp only [List.reverse_cons, List.set_set] at this
+      rw [e1]
+      exact this
+    | some e =>
+      by_cases ha : e.alive g.now = true
+      · simp only [clientAct, hi, List.getElem?_set_self, hk, ha, if_true, setClient, List.set_set]
+        have e2 : n + 2 * ks.length + 2 = (n + 2 * ks.length + 1) + 1 := by omega
+        rw [e2]
+        rw [clientRun_act (pc := .mgetPool k e.value ks accA.reverse iter) (hpc := by simp [hi]) (h1 := by simp)
+          (h2 := by simp)]
+        simp only [clientAct, hi, List.getElem?_set_self]
+        cases hp : poolAdd { g with stats := { g.stats with hits := g.stats.hits + 1 } } (g.cfg.hashOf k) o with
+        | error m => exact ⟨m, rfl⟩
+        | ok r =>
+          obtain ⟨g1, o1⟩ := r
+          have hs1 : g1.shutting = false := (poolAdd_shutting _ _ _ _ _ hp).trans hs
+          have := ih g1 (cl.set i (.mgetPool k e.value ks accA.reverse iter)) (some e.value :: accA) o1 n
+            (by simp [hi]) hs1
+          simp only [List.reverse_cons, List.set_set] at this
+          exact this
+      · simp only [clientAct, hi, List.getElem?_set_self, hk, ha, Bool.false_eq_true, if_false]
+        have := ih { g with stats := { g.stats with misses := g.stats.misses + 1 } }
+          (cl.set i (.mgetStore k ks accA.reverse iter)) (none :: accA) o (n + 1) (by simp [hi]) hs
+        simp only [List.reverse_cons, List.set_set] at this
+        rw [e1]
+        exact this
+
+/-- `multi_get` (`iter = false`) and the multi-get iterators (`iter = true`): client `i` running
+    `start → (mgetStore → [mgetPool])*` alone is Layer A's single event `.multiGet ks` (`clientMultiGet`) — same shared
+    state, same list of values, same oracle; with the flag set both answer `.values []` and touch nothing.
+    `2·|ks| + 2` iterations suffice (the first action, at most two per key, the final idle test). -/
+theorem client_mget (g : State) (w : WPc) (sw : SPc) (cl : List CPc) (res : List (List Out)) (ss : List (Nat × Nat))
+    (i : Nat) (ks : List Nat) (iter : Bool) (o : Oracle) (n : Nat) (hi : i < cl.length) :
+    CAgree ⟨g, w, sw, cl, res, none, none, [], ss⟩ i (step g (.multiGet ks) o)
+      (clientRun (n + 2 * ks.length + 2) ⟨g, w, sw, cl.set i (.start (.mget ks iter)), res, none, none, [], ss⟩ i o) := by
+  simp only [step, clientMultiGet]
+  by_cases hs : g.shutting = true
+  · have e : n + 2 * ks.length + 2 = (n + 2 * ks.length) + 2 := rfl
+    rw [e]
+    simp [clientRun, clientAct, parkedAt, finishCall, hs, hi, List.set_set, CAgree, afterCall]
+  · have hs' : g.shutting = false := by simpa using hs
+    rw [clientRun_act (pc := .start (.mget ks iter)) (hpc := by simp [hi]) (h1 := by simp) (h2 := by simp)]
+    simp only [clientAct, hi, List.getElem?_set_self, hs', Bool.false_eq_true, if_false]
+    have := run_mget w sw res ss i iter ks g (cl.set i (.start (.mget ks iter))) [] o n (by simp [hi]) hs'
+    simp only [List.reverse_nil, List.set_set] at this
+    unfold MAgree at this
+    cases hr : readKeys g ks o [] with
+    | error m => rw [hr] at this; exact this
+    | ok r =>
+      obtain ⟨g1, vs, o1⟩ := r
+      rw [hr] at this
+      simp only [CAgree, afterCall]
+      exact this
+
 /-! ### `shutdown` -/
 
 /-- one action of a client that is neither idle nor blocked at one of its sends -/
@@ -1208,15 +1336,22 @@ theorem client_shutdown (g : State) (w : WPc) (sw : SPc) (cl : List CPc) (res : 
 /-- explicit sufficient fuel for one client call (iterations of `clientRun`) -/
 def reqFuel : Req → Nat
   | .shutdown => 13
+  | .mget ks _ => 2 * ks.length + 2
   | _ => 8
+
+/-- the number of keys of a multi-key read (0 for every other request) -/
+def Req.nkeys : Req → Nat
+  | .mget ks _ => ks.length
+  | _ => 0
 
 /-- **Clients (item 3).** Client `i` runs request `r` with nobody else moving: same shared state, same recorded result
     as the Layer A call; a call that Layer A reports as `.parked` leaves the Layer B client at the send it blocks at
     (`.send cmd`, `.shutSendCmd`, `.shutSendBuf`) with that queue full and its effects so far applied (`afterCall`);
     illegal oracles are illegal on both sides. `getRef k` is Layer A's `.get k`, `shutdown` is `Ev.shutdown i`.
     `hsr`: nobody keeps a `get_ref` read guard when the call starts (non-preempted fragment); nobody does when it
-    ends (`afterCall_storeReaders`). Fuel: 8 iterations, 13 for `shutdown` (so `14 ≤ fuel` is enough for every request:
-    `client_refines_14`). -/
+    ends (`afterCall_storeReaders`). Fuel: 8 iterations, 13 for `shutdown`, `2·|ks| + 2` for a multi-key read of the
+    keys `ks` (so `14 + 2·|ks| ≤ fuel` is enough for every request: `client_refines_14`).
+    `mget ks iter` — `multi_get` and both iterators — is Layer A's `.multiGet ks`, whatever `iter` is. -/
 theorem client_refines (b : BState) (i : Nat) (r : Req) (o : Oracle) (fuel : Nat) (hi : i < b.cl.length)
     (hwu : b.wuOwner = none) (httl : b.ttlOwner = none) (hsr : b.storeReaders = []) (hf : reqFuel r ≤ fuel) :
     CAgree b i (step b.g (reqEv i r) o) (clientRun fuel (setClient b i (.start r)) i o) := by
@@ -1245,14 +1380,43 @@ theorem client_refines (b : BState) (i : Nat) (r : Req) (o : Oracle) (fuel : Nat
   | getRef k =>
     obtain ⟨n, rfl⟩ : ∃ n, fuel = n + 8 := ⟨fuel - 8, by simp only [reqFuel] at hf; omega⟩
     exact client_getRef g w sw cl res ss i k o (n + 4) hi
+  | mget ks iter =>
+    obtain ⟨n, rfl⟩ : ∃ n, fuel = n + 2 * ks.length + 2 := ⟨fuel - (2 * ks.length + 2), by simp only [reqFuel] at hf; omega⟩
+    exact client_mget g w sw cl res ss i ks iter o n hi
 
-theorem reqFuel_le (r : Req) : reqFuel r ≤ 14 := by cases r <;> simp [reqFuel]
+/-- the fuel bound: 14 for every request of bounded length; a multi-key read needs two more per key.
+    (Was `reqFuel r ≤ 14` before `Req` had `mget`; for every other request `r.nkeys = 0` and this IS that statement.) -/
+theorem reqFuel_le (r : Req) : reqFuel r ≤ 14 + 2 * r.nkeys := by cases r <;> simp [reqFuel, Req.nkeys]; omega
 
-/-- `client_refines` with one fuel bound for every request -/
+/-- `client_refines` with one fuel bound for every request (for every request other than `mget`: `14 ≤ fuel`) -/
 theorem client_refines_14 (b : BState) (i : Nat) (r : Req) (o : Oracle) (fuel : Nat) (hi : i < b.cl.length)
-    (hwu : b.wuOwner = none) (httl : b.ttlOwner = none) (hsr : b.storeReaders = []) (hf : 14 ≤ fuel) :
+    (hwu : b.wuOwner = none) (httl : b.ttlOwner = none) (hsr : b.storeReaders = []) (hf : 14 + 2 * r.nkeys ≤ fuel) :
     CAgree b i (step b.g (reqEv i r) o) (clientRun fuel (setClient b i (.start r)) i o) :=
   client_refines b i r o fuel hi hwu httl hsr (Nat.le_trans (reqFuel_le r) hf)
+
+/-- **The three multi-key reads are one Layer A event.** Run alone, `multi_get(ks)` and the multi-get iterators over
+    `ks` end in the same Layer B state with the same recorded result: the shutdown flag — the only thing they treat
+    differently — cannot change while nobody else moves. (Under interleaving they DO differ:
+    `C13_layerB_mget_after_flag`.) -/
+theorem client_mget_iter_irrelevant (b : BState) (i : Nat) (ks : List Nat) (o : Oracle) (fuel : Nat) (hi : i < b.cl.length)
+    (hwu : b.wuOwner = none) (httl : b.ttlOwner = none) (hsr : b.storeReaders = []) (hf : 2 * ks.length + 2 ≤ fuel) :
+    (∃ m m', clientRun fuel (setClient b i (.start (.mget ks false))) i o = .error m ∧
+             clientRun fuel (setClient b i (.start (.mget ks true))) i o = .error m') ∨
+    (∃ r, clientRun fuel (setClient b i (.start (.mget ks false))) i o = .ok r ∧
+          clientRun fuel (setClient b i (.start (.mget ks true))) i o = .ok r) := by
+  have h1 := client_refines b i (.mget ks false) o fuel hi hwu httl hsr hf
+  have h2 := client_refines b i (.mget ks true) o fuel hi hwu httl hsr hf
+  simp only [reqEv] at h1 h2
+  cases hA : step b.g (.multiGet ks) o with
+  | error m =>
+    rw [hA] at h1 h2
+    obtain ⟨m1, e1⟩ := h1
+    obtain ⟨m2, e2⟩ := h2
+    exact Or.inl ⟨m1, m2, e1, e2⟩
+  | ok r =>
+    obtain ⟨g', out, o'⟩ := r
+    rw [hA] at h1 h2
+    exact Or.inr ⟨_, h1, h2⟩
 
 /-- the read guard of `get_ref` does not outlive the run: `afterCall` leaves the locks and guards as they were -/
 theorem afterCall_storeReaders (b : BState) (i : Nat) (g' : State) (out : Out) :
@@ -1922,6 +2086,13 @@ theorem parked_is_send (g : State) (c : Nat) (r : Req) (o : Oracle) (g' : State)
     (h : step g (reqEv c r) o = .ok (g', out, o')) : ParkedOK c (g', out) := by
   cases r with
   | shutdown => exact absurd rfl hr
+  | mget ks iter =>
+    simp only [reqEv, step, clientMultiGet] at h
+    split at h
+    · simp only [Except.ok.injEq, Prod.mk.injEq] at h; rw [← h.2.1]; intro h; simp [isParked] at h
+    · split at h
+      · simp only [Except.ok.injEq, Prod.mk.injEq] at h; rw [← h.2.1]; intro h; simp [isParked] at h
+      · cases h
   | getRef k =>
     simp only [reqEv, step, clientGet] at h
     split at h
@@ -2026,6 +2197,7 @@ theorem parked_not_enabled (b : BState) (i : Nat) (r : Req) (o : Oracle) (g' : S
     | weight => exact Or.inl (parked_is_send _ _ _ _ _ _ _ (fun e => by cases e) h rfl)
     | upsert k v w t rm => exact Or.inl (parked_is_send _ _ _ _ _ _ _ (fun e => by cases e) h rfl)
     | getRef k => exact Or.inl (parked_is_send _ _ _ _ _ _ _ (fun e => by cases e) h rfl)
+    | mget ks iter => exact Or.inl (parked_is_send _ _ _ _ _ _ _ (fun e => by cases e) h rfl)
   rcases key with ⟨cmd, h1, h2, h3⟩ | ⟨h1, h2, h3⟩ | ⟨h1, h2, h3⟩
   · simp [parkedAt, afterCall, hi, h1, pcOfPending, h2, h3]
   · simp [parkedAt, afterCall, hi, h1, pcOfPending, h2, h3]
@@ -2182,6 +2354,28 @@ example :
       | _, _ => none) = some (true, [[102]], some 2, true) := by
   decide
 
+/-- A multi-key read of a stored key, an absent key and another stored key (`multi_get` and the iterator): Layer B
+    alone = Layer A's `.multiGet` — same state, `[Some(2), None, Some(3)]`, two pool indices consumed; 8 iterations
+    (`2·3 + 2`) suffice, 5 do not (the run is `start, 102: store+pool, 7: store, 103: store+pool`, then the idle test). -/
+example :
+    (match clientRun 8 (setClient exB2 0 (.start (.mget [102, 7, 103] false))) 0 { pool := [0, 0] },
+           step exG (.multiGet [102, 7, 103]) { pool := [0, 0] } with
+      | .ok (b', o1), .ok (g', .values vs, o2) =>
+        some (gview b'.g == gview g', b'.g.pool, vs, b'.res[0]?.map (·.length), o1.isEmpty && o2.isEmpty)
+      | _, _ => none) = some (true, [[102, 103]], [some 2, none, some 3], some 1, true) ∧
+    (match clientRun 8 (setClient exB2 0 (.start (.mget [102, 7, 103] true))) 0 { pool := [0, 0] },
+           clientRun 8 (setClient exB2 0 (.start (.mget [102, 7, 103] false))) 0 { pool := [0, 0] } with
+      | .ok (b1, _), .ok (b2, _) => gview b1.g == gview b2.g &&
+          (match b1.res[0]?, b2.res[0]? with
+           | some [Out.values v1], some [Out.values v2] => v1 == v2
+           | _, _ => false)
+      | _, _ => false) = true ∧
+    (match clientRun 5 (setClient exB2 0 (.start (.mget [102, 7, 103] false))) 0 { pool := [0, 0] } with
+      | .error m => m == "fuel exhausted"
+      | _ => false) = true ∧
+    reqFuel (.mget [102, 7, 103] false) = 8 := by
+  decide
+
 /-- the hypotheses of `sweeper_refines` hold of the example state and the visiting order `[3, 1, 2]` -/
 example : AMap.NoDup exS.ttl ∧ ValidVisits (shardEntries exS) [3, 1, 2] ∧ exS.sweeperAlive = true := by
   have h : shardEntries exS = [(2, 10), (1, 20), (3, 9 * nsPerSec)] := by decide
@@ -2326,6 +2520,17 @@ theorem shutdownSendCmd_worker (s : State) (c : Nat) : (shutdownSendCmd s c).1.w
     · rfl
     · exact (shutdownSendBuf_worker _ _).trans rfl
 
+theorem readKeys_worker : ∀ (ks : List Nat) (s : State) (o : Oracle) (acc : List (Option Nat)) (s1 : State)
+    (vs : List (Option Nat)) (o1 : Oracle), readKeys s ks o acc = .ok (s1, vs, o1) → s1.worker = s.worker
+  | [], s, o, acc, s1, vs, o1, h => by
+    simp only [readKeys, Except.ok.injEq, Prod.mk.injEq] at h; rw [← h.1]
+  | k :: ks, s, o, acc, s1, vs, o1, h => by
+    simp only [readKeys] at h
+    split at h
+    · rename_i s2 v o2 hr
+      exact (readKeys_worker ks s2 o2 _ s1 vs o1 h).trans (readKey_worker _ _ _ _ _ _ hr)
+    · cases h
+
 /-- client calls do not touch the worker's mode -/
 theorem step_client_worker (g : State) (c : Nat) (r : Req) (o : Oracle) (g' : State) (out : Out) (o' : Oracle)
     (h : step g (reqEv c r) o = .ok (g', out, o')) : g'.worker = g.worker := by
@@ -2336,6 +2541,16 @@ theorem step_client_worker (g : State) (c : Nat) (r : Req) (o : Oracle) (g' : St
     split
     · rfl
     · exact (shutdownSendCmd_worker _ _).trans rfl
+  | mget ks iter =>
+    simp only [reqEv, step, clientMultiGet] at h
+    split at h
+    · simp only [Except.ok.injEq, Prod.mk.injEq] at h; rw [← h.1]
+    · split at h
+      · rename_i s1 vs o1 hr
+        simp only [Except.ok.injEq, Prod.mk.injEq] at h
+        rw [← h.1]
+        exact readKeys_worker _ _ _ _ _ _ _ hr
+      · cases h
   | getRef k =>
     simp only [reqEv, step, clientGet] at h
     split at h
@@ -2461,7 +2676,7 @@ def atRest (b : BState) : Prop :=
   b.w = pcOfMode b.g.worker ∧ b.sw = .begin ∧ (∀ pc ∈ b.cl, pc = .idle) ∧ b.wuOwner = none ∧ b.ttlOwner = none ∧
     b.storeReaders = []
 
-/-- the Layer A events covered (`put`/`putTtl` compute a weight and call these; `multiGet`, `stats`, `poll` are not
+/-- the Layer A events covered (`put`/`putTtl` compute a weight and call these; `stats`, `poll` are not
     programs of Layer B; `resume`: see `resume_refines`) -/
 inductive Covered : Ev → Prop
   | putW (c k v w) : Covered (.putW c k v w)
@@ -2475,8 +2690,9 @@ inductive Covered : Ev → Prop
   | consumer : Covered .consumer
   | advance (d) : Covered (.advance d)
   | shutdown (c) : Covered (.shutdown c)
+  | multiGet (ks) : Covered (.multiGet ks)
 
-/-- the client thread an event belongs to (`get` and `weight` carry none in Layer A: thread 0 runs them) -/
+/-- the client thread an event belongs to (`get`, `multiGet` and `weight` carry none in Layer A: thread 0 runs them) -/
 def evClient : Ev → Nat
   | .putW c _ _ _ | .putWTtl c _ _ _ _ | .delete c _ | .upsert c _ _ _ _ _ | .shutdown c => c
   | _ => 0
@@ -2498,7 +2714,7 @@ theorem client_event_run (b : BState) (i : Nat) (r : Req) (o : Oracle) (g' : Sta
     (hb : atRest b) (hi : i < b.cl.length) (h : step b.g (reqEv i r) o = .ok (g', out, o'))
     (hnp : isParked out = false) :
     ∃ acts b', runActs b acts o = .ok (b', o') ∧ atRest b' ∧ b'.g = g' := by
-  have C := client_refines b i r o 14 hi hb.2.2.2.1 hb.2.2.2.2.1 hb.2.2.2.2.2 (reqFuel_le r)
+  have C := client_refines b i r o (reqFuel r) hi hb.2.2.2.1 hb.2.2.2.2.1 hb.2.2.2.2.2 (Nat.le_refl _)
   rw [h] at C
   simp only [CAgree] at C
   obtain ⟨k, hk⟩ := runActs_client _ _ _ _ _ _ C
@@ -2531,6 +2747,7 @@ theorem layerA_step_is_layerB_run (b : BState) (ev : Ev) (o : Oracle) (g' : Stat
   | weight => exact client_event_run b 0 .weight o g' out o' hb hcl h hnp
   | upsert c k v w t rm => exact client_event_run b c (.upsert k v w t rm) o g' out o' hb hcl h hnp
   | shutdown c => exact client_event_run b c .shutdown o g' out o' hb hcl h hnp
+  | multiGet ks => exact client_event_run b 0 (.mget ks false) o g' out o' hb hcl h hnp
   | worker =>
     obtain ⟨g, w, sw, cl, res, wu, tt, sr, ss⟩ := b
     obtain ⟨h1, h2, h3, h4, h5, h6⟩ := hb
